@@ -83,8 +83,9 @@ type Exec struct {
 }
 
 type assignItem struct {
-	kind  string // region field global all
-	reg   *Term  // region / object ref
+	kind  string // region field global all ghost
+	key   string // ghost: heap key
+	reg   *Term  // region / object ref / ghost map key
 	named *types.Named
 	field int
 	g     *ssa.Global
@@ -641,7 +642,18 @@ func (x *Exec) store(st *State, addr Value, v Value, in ssa.Instruction) {
 		s := p.Ty.Named.Underlying().(*types.Struct)
 		for i := 0; i < s.NumFields(); i++ {
 			ft := tyFromGo(s.Field(i).Type())
-			if ft.K == TArray || ft.K == TOpaque {
+			if ft.K == TArray {
+				// the array field lives in its own region: overwrite the whole region content
+				if av, ok := sv.Fs[i].(VArr); ok && ft.Elem.scalarSort() != nil {
+					pa := loadField(st, p.Ty.Named, i, p.Ref).(PArr)
+					x.frameCheckRegion(st, pa.Reg, in)
+					key := heapKey(ft.Elem, "")
+					st.heaps[key] = Store(st.heap(key, ft.Elem.scalarSort()), pa.Reg, av.Arr)
+					continue
+				}
+				vfail("store of struct value with unsupported array field %s", s.Field(i).Name())
+			}
+			if ft.K == TOpaque {
 				continue
 			}
 			x.frameCheckField(st, PField{p, i}, in)
@@ -669,6 +681,19 @@ func (x *Exec) frameCheckRegion(st *State, reg *Term, in ssa.Instruction) {
 		pos, ord = in.Pos(), instrOrd(in)
 	}
 	x.oblige(st, "frame", ord, "store targets memory allocated by this call or listed in assigns", pos, g)
+}
+
+func (x *Exec) frameCheckGhost(st *State, key string, k *Term, what string, in ssa.Instruction) {
+	var ok []*Term
+	for _, a := range x.assigns {
+		if a.kind == "ghost" && a.key == key {
+			ok = append(ok, Eq(k, a.reg))
+		}
+		if a.kind == "all" {
+			return
+		}
+	}
+	x.oblige(st, "frame", instrOrd(in), "ghost state "+what+" changed by the callee is listed in assigns", in.Pos(), Or(ok...))
 }
 
 func (x *Exec) frameCheckGlobal(st *State, g *ssa.Global, in ssa.Instruction) {
@@ -1062,9 +1087,44 @@ type VIfaceObj struct {
 	Ty  *STy
 }
 
+// typeAssert: only assertions to a named interface type. The dynamic type of a caller-supplied
+// interface value is unknown; "v implements T" is the uninterpreted predicate isT(v), which
+// the contracts can mention (a spec function of that name must be declared).
 func (x *Exec) typeAssert(st *State, i *ssa.TypeAssert) Value {
-	vfail("type assertion not supported here")
-	return nil
+	v := x.val(st, i.X)
+	named, _ := i.AssertedType.(*types.Named)
+	if named == nil || !types.IsInterface(i.AssertedType) {
+		vfail("type assertion to %s is outside the subset (only named interface types)", i.AssertedType)
+	}
+	to := tyFromGo(i.AssertedType)
+	var ok *Term
+	var res Value
+	switch s := v.(type) {
+	case VIfaceObj:
+		impl := types.Implements(types.NewPointer(s.Obj.Ty.Named), named.Underlying().(*types.Interface))
+		ok = And(BoolConst(impl), Not(Eq(s.Obj.Ref, BVInt(0, 32))))
+		res = VIfaceObj{Obj: s.Obj, Ty: to}
+	case VScalar:
+		if s.Ty.K != TIface {
+			vfail("type assertion on %s", s.Ty)
+		}
+		name := "is" + named.Obj().Name()
+		fn := x.W.SpecFns[name]
+		if fn == nil || fn.Body != nil || len(fn.Params) != 1 {
+			vfail("type assertion to %s: declare the uninterpreted predicate 'spec func %s(m iface) bool'", named.Obj().Name(), name)
+		}
+		ok = App(specFnSym(name), BoolSort, s.T)
+		st.assume(Implies(Eq(s.T, BVInt(0, 32)), Not(ok)))
+		res = VScalar{Ite(ok, s.T, BVInt(0, 32)), to}
+	default:
+		vfail("type assertion on %T", v)
+	}
+	if !i.CommaOk {
+		x.oblige(st, "typeassert", instrOrd(i), "type assertion to "+named.Obj().Name()+" succeeds (no panic)", i.Pos(), ok)
+		st.assume(ok)
+		return res
+	}
+	return VTuple{[]Value{res, VScalar{ok, tyBool}}}
 }
 
 // ---------- constants ----------
